@@ -14,7 +14,7 @@ sk = VerusUnit("c19_sink", "c19_sink", rlimit=30, paired_kani=(aw, []))
 UNITS = [fm, sk, wit, aw, wm]
 EXPLANATION = ("TWO mechanisms of C19, not the file contents under every schedule. (1) 'format the whole row, then one writeln while holding the file lock' (Verus, verbatim ResponseSink::write_response, every sink incl. Combined at any nesting, "
                "a ghost log threaded through the function): a successful call writes, per File sink and in order, exactly ONE record = the whole formatted row + newline, as ONE write through a guard of THAT file's lock taken during the call; nothing written earlier is touched; "
-               "a sink of kind None writes nothing; lemma: one complete record per File sink, none duplicated or truncated -- with std's Mutex (mutual exclusion) and append-mode writes ASSUMED this is 'no record is interleaved with another worker's'. "
+               "a sink of kind None writes nothing; ResponseOutputPolicy::build (verbatim, recursion through Combined) establishes the data invariant write_response relies on (a flush rate <= 0 is refused: no division by zero in a worker) and a sink of the policy's shape; lemma: one complete record per File sink, none duplicated or truncated -- with std's Mutex (mutual exclusion) and append-mode writes ASSUMED this is 'no record is interleaved with another worker's'. "
                "(2) 'writing a response never removes or replaces information (such as a search error) in the response handed back to the caller'. Decided (Verus, verbatim ResponseOutputFormat::format_response, "
                "both formats, any mapping): every top-level field the response had before formatting is still there with the same value afterwards -- at most ONE field that was not there is added (the reasons why CSV columns could "
                "not be filled); the JSON formats do not touch the response. The pinned code replaced the search error of a failed query by the CSV messages (found by the witness, fixed in /repo a75a949). A native witness runs batches through the real CompassApp::run with newline-delimited JSON file output (parallelism 1..3, both persistence policies): one parseable record per response in the file, input-rejected queries included (those were missing on the pinned code: fixed)")
